@@ -12,6 +12,7 @@ import (
 	"time"
 
 	"gorm.io/gorm"
+	"gorm.io/gorm/schema"
 	"pgregory.net/rapid"
 
 	"verif/internal/evid"
@@ -63,6 +64,37 @@ type caseT struct {
 	reads     []string
 	now       time.Time
 	excl      []string
+	handle    string // how operations obtain their handle (sg.Handles)
+	cfg       cfgT
+}
+
+// cfgT: the gorm.Config switches a case runs under
+type cfgT struct {
+	CreateBatchSize        int
+	SkipDefaultTransaction bool
+	PrepareStmt            bool
+	QueryFields            bool
+	DisableNestedTx        bool
+}
+
+func (c cfgT) String() string {
+	var p []string
+	if c.CreateBatchSize > 0 {
+		p = append(p, fmt.Sprintf("CreateBatchSize:%d", c.CreateBatchSize))
+	}
+	if c.SkipDefaultTransaction {
+		p = append(p, "SkipDefaultTransaction")
+	}
+	if c.PrepareStmt {
+		p = append(p, "PrepareStmt")
+	}
+	if c.QueryFields {
+		p = append(p, "QueryFields")
+	}
+	if c.DisableNestedTx {
+		p = append(p, "DisableNestedTransaction")
+	}
+	return "Config{" + strings.Join(p, ",") + "}"
 }
 
 func hasDBDefault(m *sg.Model) bool {
@@ -89,7 +121,8 @@ func hasSerializer(m *sg.Model) bool {
 func genCase(rt *rapid.T) *caseT {
 	c := &caseT{}
 	ex := excluded(rt)
-	c.spec, c.pk = sg.GenModel(rt, sg.GenOptions{Kinds: devKinds(), NoEmbedded: os.Getenv("VERIF_C03_NOEMBED") != "", Exclude: ex, OnExclude: func(k *sg.Kind) { c.excl = append(c.excl, "unixtime-uint") }})
+	c.spec, c.pk = sg.GenModel(rt, sg.GenOptions{NamingVariants: true, NoIgnoredNameAsColumn: harness.OpenClass("C03", "ignored-field-named-like-column"),
+		OnExcludeTag: func(cl string) { c.excl = append(c.excl, cl) }, Kinds: devKinds(), NoEmbedded: os.Getenv("VERIF_C03_NOEMBED") != "", Exclude: ex, OnExclude: func(k *sg.Kind) { c.excl = append(c.excl, "unixtime-uint") }})
 	c.m = sg.Build(c.spec)
 	if harness.OpenClass("C03", "nil-embedded-gob-unixtime") {
 		c.m.KeepGroups = map[string]bool{}
@@ -104,6 +137,9 @@ func genCase(rt *rapid.T) *caseT {
 	}
 	c.returning = rapid.Bool().Draw(rt, "returning")
 	n := rapid.IntRange(1, 8).Draw(rt, "n")
+	if rapid.IntRange(0, 24).Draw(rt, "many") == 0 {
+		n = rapid.IntRange(21, 30).Draw(rt, "n.many") // beyond the 20-element slice gorm.Scan starts with
+	}
 	paths := append(append([]string{}, sg.StructPaths...), sg.StructPaths...)
 	paths = append(paths, sg.MapPaths...)
 	c.plan.Path = rapid.SampledFrom(paths).Draw(rt, "create")
@@ -147,6 +183,37 @@ func genCase(rt *rapid.T) *caseT {
 		c.fill = rapid.SampledFrom(fills).Draw(rt, "keyfill")
 	}
 	c.recs = sg.GenRecords(rt, c.m, n, c.fill, 1)
+	// handle history and Config switches
+	c.handle = rapid.SampledFrom([]string{"fresh", "fresh", "fresh", "session", "context", "tx"}).Draw(rt, "handle")
+	if rapid.IntRange(0, 2).Draw(rt, "cfg") == 0 {
+		c.cfg.SkipDefaultTransaction = rapid.Bool().Draw(rt, "cfg.skiptx")
+		c.cfg.PrepareStmt = rapid.Bool().Draw(rt, "cfg.prepare")
+		c.cfg.QueryFields = rapid.Bool().Draw(rt, "cfg.queryfields")
+		c.cfg.DisableNestedTx = rapid.Bool().Draw(rt, "cfg.nonested")
+	}
+	sliceStruct := !c.plan.IsMap() && c.plan.Path != "value"
+	if sliceStruct && !strings.HasPrefix(c.plan.Path, "batches") {
+		// Create of a slice is split into batches by Config.CreateBatchSize / Session.CreateBatchSize
+		switch rapid.IntRange(0, 5).Draw(rt, "batchsize") {
+		case 0:
+			c.cfg.CreateBatchSize = rapid.IntRange(1, 4).Draw(rt, "cfg.batch")
+		case 1:
+			c.plan.SessionBatch = rapid.IntRange(1, 4).Draw(rt, "session.batch")
+		}
+	}
+	if c.returning && !c.plan.IsMap() && !strings.HasSuffix(c.plan.Path, "-byvalue") {
+		switch rapid.IntRange(0, 7).Draw(rt, "explicit-returning") {
+		case 0:
+			if c.plan.Path == "value" {
+				c.plan.Returning = "all"
+			}
+		case 1:
+			c.plan.Returning = "columns"
+		}
+	}
+	if c.plan.IsMap() {
+		c.plan.ExprValues = rapid.IntRange(0, 3).Draw(rt, "exprvalues") == 0
+	}
 	nr := rapid.IntRange(1, 3).Draw(rt, "nreads")
 	for i := 0; i < nr; i++ {
 		p := rapid.SampledFrom(sg.ReadPaths).Draw(rt, fmt.Sprintf("read%d", i))
@@ -166,7 +233,11 @@ func (c *caseT) header() string {
 	if !c.returning {
 		ret = "no-returning"
 	}
-	return fmt.Sprintf("%s pk=%s create=%s fill=%s %s reads=%v n=%d now=%s", c.spec, c.pk, c.plan, c.fill, ret, c.reads, len(c.recs.Vals), c.now.Format(time.RFC3339Nano))
+	naming := ""
+	if c.spec.NoLowerCase {
+		naming = " NamingStrategy{NoLowerCase}"
+	}
+	return fmt.Sprintf("%s pk=%s create=%s fill=%s %s reads=%v n=%d handle=%s %s%s now=%s", c.spec, c.pk, c.plan, c.fill, ret, c.reads, len(c.recs.Vals), c.handle, c.cfg, naming, c.now.Format(time.RFC3339Nano))
 }
 
 func (c *caseT) desc() string {
@@ -241,6 +312,48 @@ func (c *caseT) classes() []string {
 			set["tag:column=other-field-name-other-case"] = true
 		}
 	}
+	set["handle:"+c.handle] = true
+	if c.cfg.CreateBatchSize > 0 {
+		set["config:CreateBatchSize"] = true
+	}
+	if c.cfg.SkipDefaultTransaction {
+		set["config:SkipDefaultTransaction"] = true
+	}
+	if c.cfg.PrepareStmt {
+		set["config:PrepareStmt"] = true
+	}
+	if c.cfg.QueryFields {
+		set["config:QueryFields"] = true
+	}
+	if c.cfg.DisableNestedTx {
+		set["config:DisableNestedTransaction"] = true
+	}
+	if c.spec.NoLowerCase {
+		set["config:NamingStrategy.NoLowerCase"] = true
+	}
+	if c.plan.SessionBatch > 0 {
+		set["create:Session.CreateBatchSize"] = true
+	}
+	if c.plan.Returning != "" {
+		set["create:explicit-Returning-"+c.plan.Returning] = true
+	}
+	if c.plan.ExprValues {
+		set["create:map-values-as-clause.Expr"] = true
+	}
+	for _, l := range c.m.Shadowed {
+		if l.Spec.Ignored {
+			set["tag:-(ignored field)"] = true
+		}
+	}
+	styles := map[int]string{1: "tag-keys-upper-case", 2: "tag-primary_key-alias"}
+	for _, l := range c.m.Leaves {
+		if st, ok := styles[l.Spec.TagStyle]; ok && l.Spec.Tag() != "" {
+			set["tag:"+st] = true
+		}
+	}
+	if len(c.recs.Vals) > 20 {
+		set["records:>20"] = true
+	}
 	set["pk:"+c.pk] = true
 	set["create:"+c.plan.Path] = true
 	if c.plan.KeysByName {
@@ -255,7 +368,9 @@ func (c *caseT) classes() []string {
 		set["returning:off"] = true
 	}
 	set["keyfill:"+string(c.fill)] = true
-	set[fmt.Sprintf("records:%d", len(c.recs.Vals))] = true
+	if len(c.recs.Vals) <= 8 {
+		set[fmt.Sprintf("records:%d", len(c.recs.Vals))] = true
+	}
 	out := make([]string, 0, len(set))
 	for k := range set {
 		out = append(out, k)
@@ -266,9 +381,14 @@ func (c *caseT) classes() []string {
 
 // run executes the case on a fresh database and returns the violation ("" = held).
 func (c *caseT) run() string {
-	d := testdb.Open(testdb.Options{NoReturning: !c.returning, Config: gorm.Config{NowFunc: sg.FixedClock(c.now)}})
+	cfg := gorm.Config{NowFunc: sg.FixedClock(c.now), CreateBatchSize: c.cfg.CreateBatchSize, SkipDefaultTransaction: c.cfg.SkipDefaultTransaction,
+		PrepareStmt: c.cfg.PrepareStmt, QueryFields: c.cfg.QueryFields, DisableNestedTransaction: c.cfg.DisableNestedTx}
+	if c.spec.NoLowerCase {
+		cfg.NamingStrategy = schema.NamingStrategy{NoLowerCase: true}
+	}
+	d := testdb.Open(testdb.Options{NoReturning: !c.returning, Config: cfg})
 	defer d.Close()
-	env := &sg.Env{DB: d, Table: "t_c03", M: c.m, Returning: c.returning, Now: c.now}
+	env := &sg.Env{DB: d, Table: "t_c03", M: c.m, Returning: c.returning, Now: c.now, Handle: c.handle}
 	if err := env.Migrate(); err != nil {
 		return "AutoMigrate of the generated model failed: " + err.Error()
 	}
@@ -372,4 +492,13 @@ func TestC03WitnessNilEmbeddedGobUnixtime(t *testing.T) {
 		spec := idMarker(&sg.FieldSpec{Name: "Extra", Ptr: true, Embedded: &sg.StructSpec{Fields: []*sg.FieldSpec{{Name: "Payload", Kind: k}, {Name: "Level", Kind: sg.KInt}}}})
 		witness(t, spec, sg.CreatePlan{Path: "value"}, true, []string{"first"}, 1, nil)
 	}
+}
+
+// a `gorm:"-"` field whose Go name is the column name of another field: SelectAndOmitColumns marks
+// the ignored field's NAME as not creatable, which removes the other field's column from the INSERT.
+func TestC03WitnessIgnoredFieldNamedLikeColumn(t *testing.T) {
+	spec := idMarker(&sg.FieldSpec{Name: "Alpha", Kind: sg.KInt, Column: "Delta"}, &sg.FieldSpec{Name: "Delta", Kind: sg.KString, Ignored: true})
+	witness(t, spec, sg.CreatePlan{Path: "value"}, true, []string{"first"}, 1, func(i int, m *sg.Model, rec reflect.Value) {
+		m.Leaves[2].Set(rec, reflect.ValueOf(5))
+	})
 }
